@@ -57,13 +57,17 @@ impl Report {
         if self.violations.iter().any(|v| v.property == property && v.case == case) {
             return;
         }
-        if self.violations.len() < 50 {
+        // violations of other properties (reported by those properties' own checks) are kept as notes only and
+        // never crowd out or stop the search for violations of the property this run is about
+        let own = property == self.property;
+        let others = self.violations.iter().filter(|v| v.property != self.property).count();
+        if (own && self.violations.len() < 60) || (!own && others < 10) {
             self.violations.push(Violation { property: property.into(), case: case.into(), msg: msg.into(), replay: replay_json.into() });
         }
     }
-    /// enough distinct violations collected: engines stop exploring (the run is then not exhaustive)
+    /// enough distinct violations of this run's property collected: engines stop exploring (the run is then not exhaustive)
     pub fn saturated(&self) -> bool {
-        self.violations.len() >= 12
+        self.violations.iter().filter(|v| v.property == self.property).count() >= 12
     }
     pub fn sample(&mut self, s: String) {
         if self.samples.len() < 8 {
